@@ -538,3 +538,11 @@ func (e *Exec) ThreadStates() []ThreadInfo {
 	}
 	return out
 }
+
+// Step returns the number of scheduling steps executed so far (a logical clock).
+func Step() int64 {
+	if e := cur; e != nil {
+		return int64(e.steps)
+	}
+	return 0
+}
